@@ -47,12 +47,14 @@ structure Row where
 
 def Row.at (r : Row) (j : Int) : Int := r.vals.getD (j - r.lo).toNat 0
 
-/-- the directed view of the two sequences the program runs on -/
+/-- the directed view of the two sequences the program runs on: the sequences themselves and the
+    direction (`rev = true`: mirrored coordinates `i' = Qlen - i`, `j' = Tlen - j`).  The letters are
+    read through `View.qAt` / `View.tAt` (arrays and a flag rather than two closures: the accessors
+    are on the hot path of the compiled driver). -/
 structure View where
-  /-- the query letter consumed by the step from row `i` to row `i+1` -/
-  qAt : Int → Nat
-  /-- the target letter consumed by the step from column `j-1` to column `j` -/
-  tAt : Int → Nat
+  q : Array Nat
+  t : Array Nat
+  rev : Bool
   qlen : Int
   tlen : Int
   /-- the x-drop allowance in force while the step from row `i` is processed -/
@@ -63,6 +65,14 @@ structure View where
   /-- the two pruning loops run `high` first (the mirror image of `traceReverse`'s `low` first);
       it matters only when every cell of the row is pruned -/
   pruneHighFirst : Bool
+
+/-- the query letter consumed by the step from row `i` to row `i+1` (mirrored: `query[Qlen-1-i']`) -/
+@[inline] def View.qAt (v : View) (i : Int) : Nat :=
+  if v.rev then v.q.getD (v.qlen - 1 - i).toNat 0 else v.q.getD i.toNat 0
+
+/-- the target letter consumed by the step from column `j-1` to column `j` (mirrored: `target[Tlen-j']`) -/
+@[inline] def View.tAt (v : View) (j : Int) : Nat :=
+  if v.rev then v.t.getD (v.tlen - j).toNat 0 else v.t.getD (j - 1).toNat 0
 
 structure Best where
   score : Int
@@ -189,27 +199,30 @@ structure Seqs where
 def Seqs.tlen (s : Seqs) : Int := s.target.size
 def Seqs.qlen (s : Seqs) : Int := s.query.size
 
+/-- the view `traceForward` runs on -/
+def fwdView (c : Costs) (s : Seqs) : View :=
+  { q := s.query, t := s.target, rev := false, qlen := s.qlen, tlen := s.tlen,
+    xf := fun _ => c.blockCost, bestAtExtended := false, pruneHighFirst := false }
+
+/-- the view `traceReverse` runs on.  Mirrored: row `i'` stands for `i = Qlen - i'`, column `j'` for
+    `j = Tlen - j'`; the step from row `i'` consumes `query[Qlen-1-i']`, i.e. it is the source's
+    iteration `i = Qlen-1-i'`, which runs under `x0` down to `i = bottom` inclusive, then under
+    `BlockCost`. -/
+def revView (c : Costs) (s : Seqs) (bottom x0 : Int) : View :=
+  { q := s.query, t := s.target, rev := true, qlen := s.qlen, tlen := s.tlen
+    xf := fun i' => if s.qlen - 1 - i' ≥ bottom then x0 else c.blockCost
+    bestAtExtended := true, pruneHighFirst := true }
+
 /-- `traceForward(mid, low, high)`: `lowEnd` -/
 def traceForward (c : Costs) (s : Seqs) (mid low high : Int) : TraceOut :=
   let (low, high) := clampBounds s.tlen low high
-  traceCore c
-    { qAt := fun i => s.query.getD i.toNat 0, tAt := fun j => s.target.getD (j - 1).toNat 0,
-      qlen := s.qlen, tlen := s.tlen, xf := fun _ => c.blockCost, bestAtExtended := false, pruneHighFirst := false } mid low high
+  traceCore c (fwdView c s) mid low high
 
-/-- `traceReverse(top, low, high, bottom, xfactor)`: `highEnd`.  Mirrored: row `i'` stands for
-    `i = Qlen - i'`, column `j'` for `j = Tlen - j'`; the step from row `i'` consumes
-    `query[Qlen-1-i']`, i.e. it is the source's iteration `i = Qlen-1-i'`. -/
+/-- `traceReverse(top, low, high, bottom, xfactor)`: `highEnd`, on the mirrored view -/
 def traceReverse (c : Costs) (s : Seqs) (top low high bottom xfactor : Int) : TraceOut :=
   let (low, high) := clampBounds s.tlen low high
   let x0 := if top - 1 ≤ bottom then c.blockCost else xfactor
-  let o := traceCore c
-    { qAt := fun i' => s.query.getD (s.qlen - 1 - i').toNat 0
-      tAt := fun j' => s.target.getD (s.tlen - j').toNat 0
-      qlen := s.qlen, tlen := s.tlen
-      -- iteration `i = Qlen-1-i'` runs under `x0` down to `i = bottom` inclusive, then under BlockCost
-      xf := fun i' => if s.qlen - 1 - i' ≥ bottom then x0 else c.blockCost
-      bestAtExtended := true, pruneHighFirst := true }
-    (s.qlen - top) (s.tlen - high) (s.tlen - low)
+  let o := traceCore c (revView c s bottom x0) (s.qlen - top) (s.tlen - high) (s.tlen - low)
   { maxJ := s.tlen - o.maxJ, maxI := s.qlen - o.maxI
     -- `i - j = (Qlen - Tlen) - (i' - j')`
     maxLeft := (s.qlen - s.tlen) - o.maxRight, maxRight := (s.qlen - s.tlen) - o.maxLeft
